@@ -9,6 +9,9 @@ must fire on every run and the program-wide instance counts must stay above the 
 S1  no comparison with +-infinity is constant: `x <= infinity`, `x >= -infinity` (always true), `x > ... `: see INF_BAD
 S2  a value that is "a position or -1" (result of pos()/number()/index(), an element of a permutation array) is compared with 0 only
     by `< 0` / `>= 0`: `> 0` and `<= 0` treat position 0 as "absent" (also: int locals that are initialised with or assigned -1)
+S10 a loop variable bounded by nRows() / numRows...() is a row index, one bounded by nCols() / numCols...() a column index: it is passed only to
+    getters / setters of that kind and subscripts only arrays of that kind
+S3  an ascending counting loop over a container starts at 0 - or at 1 when the element 0 was handled just before it
 S4  a descending counting loop (`for(v = <computed>; v OP 0; --v)`) runs while v >= 0: `v > 0` skips the entry 0
 S5  inside a loop over the positions 0..size()-1 of a sparse vector, the vector is read through index(p) / value(p) / element(p),
     never subscripted by index with the position
@@ -374,6 +377,8 @@ _CACHE = {}
 TEXT = {
     'S1': 'no comparison with +-infinity is constant (`x <= infinity`, `x >= -infinity`, `x < -infinity`)',
     'S2': 'a position-or-minus-one value (pos(), number(), permutation entries) is compared with 0 only by `< 0` / `>= 0`',
+    'S10': 'a loop variable bounded by the number of rows (columns) is passed only to row (column) getters / setters and subscripts only per-row (per-column) arrays',
+    'S3': 'an ascending counting loop over a container starts at 0, or at 1 after the element 0 was handled separately',
     'S4': 'a descending counting loop that starts at a computed value runs down to 0 (`>= 0`), not to 1',
     'S5': 'inside a loop over the positions of a sparse vector the vector is never subscripted by index with the position',
     'S6': 'an else-if chain (or two consecutive ifs) with lower/upper (or sign) mirror-image conditions has mirror-image arms',
@@ -381,7 +386,17 @@ TEXT = {
     'S9': 'a two-parameter comparator whose parameters are interchangeable (ch1/ch2, a/b, x/y) applies the same expression to both',
     'S7': 'two member functions whose names are lower/upper (lhs/rhs, min/max, ...) mirror images and whose bodies have the same shape are mirror images',
 }
-FLOORS = {'S1': 350, 'S2': 60, 'S4': 260, 'S5': 150, 'S6': 45, 'S7': 90, 'S8': 10, 'S9': 4}
+FLOORS = {'S10': 800, 'S3': 450, 'S1': 350, 'S2': 60, 'S4': 260, 'S5': 150, 'S6': 45, 'S7': 90, 'S8': 10, 'S9': 4}
+ROWB = re.compile(r'\b(nRows|numRows|numRowsReal|numRowsRational|numRowsT)\(\)')
+COLB = re.compile(r'\b(nCols|numCols|numColsReal|numColsRational|numColsT)\(\)')
+ROWGET = set('lhs rhs rowVector rowType maxRowObj rowObj lhsReal rhsReal lhsRational rhsRational rowVectorReal rowVectorRational rowVectorRealInternal rId changeLhs changeRhs '
+             'changeRange changeRow changeRowObj lhsRealInternal rhsRealInternal basisRowStatus rowRangeType getRow removeRow changeLhsReal changeRhsReal changeRangeReal '
+             'changeLhsRational changeRhsRational changeRangeRational lhsUnscaled rhsUnscaled'.split())
+COLGET = set('lower upper obj maxObj colVector cId changeLower changeUpper changeObj changeBounds changeCol lowerReal upperReal objReal lowerRational upperRational objRational '
+             'colVectorReal colVectorRational colVectorRealInternal lowerRealInternal upperRealInternal basisColStatus getCol removeCol changeLowerReal changeUpperReal '
+             'changeBoundsReal changeObjReal changeLowerRational changeUpperRational changeBoundsRational changeObjRational lowerUnscaled upperUnscaled objUnscaled maxObjUnscaled'.split())
+ROWARR = re.compile(r'(_rowTypes|_basisStatusRows|rowscaleExp|rStatus|rowStatus|m_rIdx|m_rBasisStat)$')
+COLARR = re.compile(r'(_colTypes|_basisStatusCols|colscaleExp|cStatus|colStatus|m_cIdx|m_cBasisStat)$')
 SENSEPAT = re.compile(r'MINIMIZE|MAXIMIZE|\bmaximizing\b|\bminimizing\b|maxSense|spxSense|m_thesense')
 SPARSE = re.compile(r'^(const )?(class )?(soplex::)?(SVectorBase|SSVectorBase|DSVectorBase|UnitVectorBase)<')
 PERMNAME = re.compile(r'perm', re.I)
@@ -515,6 +530,54 @@ def _scan(fb):
                         put('S4', 'loop(%s %s 0)' % (v, c.o), n, c.o == '>=', 'runs down to 0' if c.o == '>=' else
                             'the loop counts %s down from %s while %s > 0 and uses %s in its body: the value 0 (the first row / column / entry) is never visited; every other '
                             'descending loop of the code base runs while %s >= 0' % (v, start[:40], v, v, v), 'S4')
+                m3 = re.search(r'(\w+) = \(?(\d+)\)?;?$', render(init).strip()) if init is not None else None
+                if m3 and inc is not None and body is not None and '++' in render(inc) and c.k == 'BinaryOperator' and c.o == '<' and m3.group(2) in ('0', '1') \
+                        and render(strip(c.kids[0])) == m3.group(1):
+                    v3 = m3.group(1)
+                    uses = [x for x in body.walk() if (x.k == 'ArraySubscriptExpr' and render(strip(x.kids[1])) == v3)
+                            or (x.is_call() and any(render(strip(a_)) == v3 for a_ in x.args()))]
+                    if uses:
+                        if m3.group(2) == '0':
+                            put('S3', 'loop(%s = 0)' % v3, n, True, 'starts at 0', 'S3ok')
+                        else:
+                            bodyrefs = set(x.u for x in body.walk() if x.k == 'DeclRefExpr' and x.dk == 'local')
+                            first = False
+                            for x in f.nodes:
+                                if not (n.l - 60 <= x.l <= n.l) or x.i in set(y.i for y in n.walk()):
+                                    continue
+                                if x.k == 'ArraySubscriptExpr' and render(strip(x.kids[1])) == '0':
+                                    first = True
+                                if x.is_call() and x.short in ('index', 'value', 'element', 'operator[]') and any(render(strip(a_)) == '0' for a_ in x.args()):
+                                    first = True
+                                if x.k == 'BinaryOperator' and x.o == '=' and render(strip(x.kids[1])) == '0' and strip(x.kids[0]).k == 'DeclRefExpr' and strip(x.kids[0]).u in bodyrefs:
+                                    first = True
+                                if x.k == 'VarDecl' and x.c and render(strip(x.kids[0])) == '0' and x.u in bodyrefs:
+                                    first = True
+                            put('S3', 'loop(%s = 1)' % v3, n, first, 'element 0 is handled before the loop' if first else
+                                'the loop over %s starts at 1 and nothing before it handles the element 0 (no subscript 0, no index(0) / value(0), no candidate initialised to 0): the first element is skipped'
+                                % render(strip(c.kids[1]))[:40], 'S3')
+                ctext = render(n.kid('cond')) + ' ' + (render(init) if init is not None else '')
+                isr, isc = bool(ROWB.search(ctext)), bool(COLB.search(ctext))
+                m10 = re.search(r'(\w+) = ', render(init)) if init is not None else None
+                if isr != isc and m10 and body is not None:
+                    dom, v10 = ('row' if isr else 'column'), m10.group(1)
+                    for x in body.walk():
+                        want = None
+                        if x.k == 'CXXMemberCallExpr' and x.args() and render(strip(x.args()[0])) == v10:
+                            want = 'row' if x.short in ROWGET else 'column' if x.short in COLGET else None
+                            what = x.short + '()'
+                        elif x.k == 'ArraySubscriptExpr' and render(strip(x.kids[1])) == v10:
+                            b10 = render(strip(x.kids[0]))
+                            want = 'row' if ROWARR.search(b10) else 'column' if COLARR.search(b10) else None
+                            what = b10 + '[]'
+                        elif x.k == 'CXXOperatorCallExpr' and x.short == 'operator[]' and len(x.kids) >= 3 and render(strip(x.kids[2])) == v10:
+                            b10 = render(strip(x.kids[1]))
+                            want = 'row' if ROWARR.search(b10) else 'column' if COLARR.search(b10) else None
+                            what = b10 + '[]'
+                        if want:
+                            put('S10', '%s-loop(%s)|%s' % (dom, v10, what[:30]), x, want == dom, '%s index used for %s data' % (dom, want) if want == dom else
+                                '%s counts the %ss (loop bound %s) but `%s` addresses per-%s data with it: the entry of a different row / column is used, or an entry beyond the end'
+                                % (v10, dom, render(strip(n.kid('cond')))[:40], render(x)[:50], want), 'S10')
                 lb = _size_loop(n)
                 if lb and body is not None:
                     v, recv, sz = lb
@@ -602,7 +665,7 @@ def _scan(fb):
                               'bodies are mirror images' if not why else ('listed as asymmetric: ' + acc) if acc else
                               '%s (line %d) and %s (line %d) have the same shape, but %s' % (f.short, f.line, gname, g.line, why[0])))
     _reference(comparable, nc)
-    need = {'S1', 'S2', 'S4', 'S5', 'S6', 'S7', 'S8', 'S9'}
+    need = {'S1', 'S10', 'S2', 'S3', 'S4', 'S5', 'S6', 'S7', 'S8', 'S9'}
     if not need <= ctl:
         raise AnalysisBroken('shape rules: positive controls did not fire: %s' % sorted(need - ctl))
     for r, fl in FLOORS.items():
